@@ -135,6 +135,9 @@ def w_solve(ctx, rng, idx):
     kw = {'solver': solver}
     if use_mals:
         kw['threshold'] = [0, 1e-12][int(rng.integers(0, 2))]
+        if rng.random() < 0.4:  # "no rank bound" said explicitly, in one of the ways to write infinity
+            import math
+            kw['max_rank'] = [np.inf, float('inf'), math.inf, np.float64('inf')][int(rng.integers(0, 4))]
     ctx.describe({'op': 'sle.' + name, 'dims': dims, 'operator': okind, 'complex': cplx, 'guess': gk, 'guess_ranks': g.ranks, 'solver': solver, 'kw': {k: v for k, v in kw.items()}})
     tags = [name, 'solver=' + solver] + (['complex'] if cplx else [])
     errs = []
